@@ -273,7 +273,8 @@ def check_par_wrap(project: Project, rep):
     r3, c3, e3 = run(Seq([X, Y], "list"), serial)
     r4, c4, e4 = run(Seq([X, Y], "list"), par)
     r5, c5, e5 = run(X, par)
-    err = e1 or e2 or e3 or e4 or e5
+    r6, c6, e6 = run(Seq([X], "list"), par)
+    err = e1 or e2 or e3 or e4 or e5 or e6
     if not err and inexact:
         err = "transform could not be followed exactly (" + inexact[0] + "): which diagram reaches the per-diagram routine is not decided"
     if err:
@@ -310,6 +311,16 @@ def check_par_wrap(project: Project, rep):
                     construct=f"{tr.qualname}: unwrap")
     else:
         rep.unmodelled("AD-WRAP", tr, tr.node, f"one-element collection: {len(c2)} calls, result {r2!r}"[:200])
+    # a one-element collection with n_jobs set: the same one-element list as without
+    if len(c6) == 1 and which(c6[0]) == ["X"] and isinstance(r6, Seq) and len(r6.items) == 1 and uid(r6.items[0]) is not None:
+        rep.discharged("AD-WRAP", tr, tr.node, "a one-element collection with n_jobs set yields a one-element list as well",
+                       nontrivial=False)
+    elif len(c6) == 1 and uid(r6) is not None and isinstance(r2, Seq):
+        rep.refuted("AD-WRAP", tr, tr.node, "with n_jobs set a one-element collection is unwrapped like a lone diagram, without n_jobs "
+                                            "it yields a one-element list: the shape of the result depends on n_jobs",
+                    construct=f"{tr.qualname}: unwrap under n_jobs")
+    else:
+        rep.unmodelled("AD-WRAP", tr, tr.node, f"one-element collection with n_jobs: {len(c6)} calls, result {r6!r}"[:200])
     # ---- AD-PAR
     if len(c3) == 2 and len(c4) == 2 and [which(c) for c in c3] == [["X"], ["Y"]]:
         diff = None
